@@ -347,8 +347,13 @@ func randTemplate(r *rand.Rand, maxFields int) []*entities.InfoElement {
 
 func randVals(r *rand.Rand, ies []*entities.InfoElement, maxVar int) [][]int {
 	vals := make([][]int, len(ies))
+	allZero := r.Intn(8) == 0 // a record whose every value is zero / empty
 	for i, ie := range ies {
-		vals[i] = gen.Abs(r, ie, maxVar)
+		if allZero {
+			vals[i] = gen.Zero(ie)
+		} else {
+			vals[i] = gen.Abs(r, ie, maxVar)
+		}
 	}
 	return vals
 }
